@@ -295,6 +295,9 @@ func CheckLogsMatchOps(prop string, views map[string]*LedgerView, results []*OpR
 				continue
 			}
 			k := name + "|" + li.Sig
+			if counts[k] == nil && importedFrom(results, name, li.Sig) {
+				continue // brought by an import: judged by the import oracles
+			}
 			if counts[k] == nil {
 				vs = append(vs, Violation{prop, "log-explained-by-a-write", fmt.Sprintf("ledger %s log %d (%s sig=%q) corresponds to no write of the history", name, r.ID, li.Kind, li.Sig)})
 				continue
@@ -833,4 +836,26 @@ func jsonEq(a, b []byte) bool {
 	ab, _ := json.Marshal(x)
 	bb, _ := json.Marshal(y)
 	return bytes.Equal(ab, bb)
+}
+
+// importedFrom: is sig the signature of a write of another ledger that some import op fed into ledgerName?
+func importedFrom(results []*OpResult, ledgerName, sig string) bool {
+	for _, r := range results {
+		if r.Op.Kind != KImport || r.Op.Ledger != ledgerName {
+			continue
+		}
+		for _, o := range results {
+			if o.Op.Ledger == r.Op.From {
+				if o.Op.sig() == sig {
+					return true
+				}
+				for i := range o.Op.Elements {
+					if o.Op.Elements[i].sig() == sig {
+						return true
+					}
+				}
+			}
+		}
+	}
+	return false
 }
